@@ -175,6 +175,16 @@ func init() {
 			}
 			return SliceV{s: s}
 		},
+		"sync/atomic.StoreInt32": atomicStore,
+		"sync/atomic.StoreInt64": atomicStore,
+		"sync/atomic.StoreUint32": atomicStore,
+		"sync/atomic.LoadInt32":  atomicLoad,
+		"sync/atomic.LoadInt64":  atomicLoad,
+		"sync/atomic.LoadUint32": atomicLoad,
+		"sync/atomic.AddInt32":   atomicAdd,
+		"sync/atomic.AddInt64":   atomicAdd,
+		"sync/atomic.CompareAndSwapInt32": atomicCAS,
+		"sync/atomic.CompareAndSwapInt64": atomicCAS,
 		"runtime.GC":         nop,
 		"runtime.Gosched":    nop,
 		"runtime.KeepAlive":  nop,
@@ -233,6 +243,29 @@ func init() {
 		return w.callBody(fn, args)
 	}
 	intrinsicMergeSafe["unicode.To"] = true
+}
+
+func atomicStore(w *Worker, _ *ssa.Function, args []Value, _ ssa.CallInstruction) Value {
+	w.store(args[0].(Ptr), args[1])
+	return nil
+}
+
+func atomicLoad(w *Worker, _ *ssa.Function, args []Value, _ ssa.CallInstruction) Value {
+	return w.load(args[0].(Ptr))
+}
+
+func atomicAdd(w *Worker, _ *ssa.Function, args []Value, _ ssa.CallInstruction) Value {
+	v := w.B.Add(w.load(args[0].(Ptr)).(*Term), args[1].(*Term))
+	w.store(args[0].(Ptr), v)
+	return v
+}
+
+func atomicCAS(w *Worker, _ *ssa.Function, args []Value, _ ssa.CallInstruction) Value {
+	p := args[0].(Ptr)
+	cur := w.load(p).(*Term)
+	eq := w.B.Eq(cur, args[1].(*Term))
+	w.store(p, w.B.Ite(eq, args[2].(*Term), cur))
+	return eq
 }
 
 func nop(w *Worker, _ *ssa.Function, _ []Value, _ ssa.CallInstruction) Value { return nil }
